@@ -25,7 +25,7 @@ ASSUMPTIONS = [
     "the pending command whose sequence number a bad frame used may itself time out; the clauses protect other and later commands",
     "a flipped byte inside a correctly framed reply changes the decoded value undetectably (EZSP has no checksum) and is not flagged",
 ]
-PROBES = ["inject.truncated", "inject.empty", "inject.random", "inject.flip", "inject.fid_subst", "inject.seq_subst", "inject.unknown_id",
+PROBES = ["decodable_not_dispatched", "inject.truncated", "inject.empty", "inject.random", "inject.flip", "inject.fid_subst", "inject.seq_subst", "inject.unknown_id",
           "undecodable_ignored", "decodable_dispatched", "pending_seq_foreign_fid", "pending_seq_own_fid", "pending_call_timed_out_after_bad_frame",
           "after_command_ok", "mode.idle", "mode.pending"]
 
@@ -153,9 +153,14 @@ def run(scenario, params, tape, detail=False):
             if len(raised) > nr:
                 viol.append(("C08.noraise", "escaped", f"v{V}: EZSP.frame_received raised {raised[-1][2]} for {what} frame {data.hex()}"))
             if ok:
-                probe("decodable_dispatched")
-                if len(got) != 1 or got[0][1] != name:
-                    viol.append(("C08.cbvalid", "valid-frame-not-dispatched", f"v{V}: fully decodable {name} frame {data.hex()} ({what}) led to callbacks {[(g[1]) for g in got]}"))
+                # the statement only forbids callbacks for frames that do not decode; that a decodable frame IS dispatched (once) is C06.cb's subject.
+                # What is demanded here: if anything is dispatched it is this frame, once.
+                if len(got) == 1 and got[0][1] == name:
+                    probe("decodable_dispatched")
+                elif not got:
+                    probe("decodable_not_dispatched")
+                else:
+                    viol.append(("C08.cbvalid", "wrong-callback", f"v{V}: {name} frame {data.hex()} ({what}) led to callbacks {[(g[1]) for g in got]}"))
             else:
                 probe("undecodable_ignored")
                 if got:
